@@ -287,6 +287,74 @@ def sam_scan_oracle(rng):
     return []
 
 
+def table_kernel_oracle(rng):
+    """the generic search itself, with activation and match values it cannot choose: a BaseART subclass whose kernel
+    functions read a table (values drawn from {-inf, 0, 1/2, 1, +inf} for the activation, {0, 1/2, 1} for the match),
+    so that ties, infinite activations and every vigilance outcome occur.  Every sample must be assigned as the
+    specification scan prescribes, and the search must terminate."""
+    from artlib.common.BaseART import BaseART
+
+    class TableART(BaseART):
+        def __init__(self, rho, Tt, Mt):
+            super().__init__({"rho": rho})
+            self.Tt, self.Mt = Tt, Mt
+
+        @staticmethod
+        def validate_params(params):
+            assert "rho" in params
+
+        def validate_data(self, X):
+            pass
+
+        def category_choice(self, i, w, params):
+            return self.Tt[int(i[0])][int(w[0])], {}
+
+        def match_criterion(self, i, w, params, cache=None):
+            return self.Mt[int(i[0])][int(w[0])], cache
+
+        def update(self, i, w, params, cache=None):
+            return w
+
+        def new_weight(self, i, params):
+            return np.array([float(len(self.W))])
+    n = rng.randrange(3, 9)
+    vals = [float("-inf"), 0.0, 0.5, 1.0, float("inf"), 0.25]
+    Tt = [[rng.choice(vals) for _ in range(n)] for _ in range(n)]
+    Mt = [[rng.choice([0.0, 0.5, 1.0]) for _ in range(n)] for _ in range(n)]
+    rho = rng.choice([0.0, 0.5, 1.0])
+    mode = rng.choice(B.MODES)
+    eps = rng.choice([0.0, 0.25])
+    tbl = [rng.random() < 0.6 for _ in range(7)]
+    use_veto = rng.random() < 0.6
+    est = TableART(rho, Tt, Mt)
+    X = np.array([[float(i)] for i in range(n)])
+    rep = {"kernel": "table", "T": [[repr(v) for v in r] for r in Tt], "M": Mt, "rho": rho, "mode": mode, "eps": eps, "reset_table": tbl if use_veto else None,
+           "how": "sample i = [i], category c = [c]; category_choice(i, c) = T[i][c], match_criterion(i, c) = M[i][c]; fit on the samples 0..n-1"}
+    exp = []
+    nW = 0
+    for i in range(n):
+        if nW == 0:
+            exp.append(0); nW = 1; continue
+        vfun = (lambda c, i=i: bool(tbl[(3 * i + 5 * c) % 7])) if use_veto else (lambda c: True)
+        T = [Tt[i][c] if not (mode == "MT~" and use_veto and not vfun(c)) else float("nan") for c in range(nW)]
+        c, _ = expected_scan(T, Mt[i][:nW], rho, mode, eps, (lambda c: True) if mode == "MT~" else vfun, False)
+        if c is None:
+            c = nW; nW += 1
+        exp.append(c)
+    veto = (lambda x, w, c_, params=None, cache=None: bool(tbl[(3 * int(x[0]) + 5 * int(c_)) % 7])) if use_veto else None
+    try:
+        with C.time_limit(5), np.errstate(all="ignore"):
+            est.fit(X, match_reset_func=veto, match_tracking=mode, epsilon=eps)
+    except TimeoutError:
+        return {"signature": "BaseART.step_fit/search-does-not-terminate", "text": "fit did not return within 5 s: the search loop never ends", "replay": rep}
+    except Exception as e:
+        return {"signature": "BaseART.step_fit/table-kernel-raises", "text": f"{type(e).__name__}: {str(e)[:80]}", "replay": rep}
+    got = [int(v) for v in est.labels_]
+    if got != exp:
+        return {"signature": "BaseART.step_fit/table-kernel", "text": f"labels {got}, the specification scan gives {exp}", "replay": rep}
+    return None
+
+
 def refit_oracle(rng):
     """the search of a fit call on a USED estimator (trained, then read: predict, W, n_clusters, cluster centres): its
     first sample founds category 0 and every sample is assigned as in the one-sample-at-a-time presentation on a
@@ -417,6 +485,14 @@ def main():
         if r:
             fails.append(r)
 
+    # the search loop on arbitrary activation / match values (a table kernel: ties, +-inf)
+    rng_t = C.make_rng(seed, "C01-table")
+    n_tab = 300 if tier == "quick" else 3000
+    for _ in range(n_tab):
+        r = table_kernel_oracle(rng_t)
+        if r:
+            fails.append(r)
+
     # fit on a used estimator (after training and reads)
     rng_r = C.make_rng(seed, "C01-refit")
     n_refit = 200 if tier == "quick" else 2000
@@ -439,7 +515,7 @@ def main():
         "rule": "random grid data (k/8, small row pools -> duplicates and exact ties), kernels Fuzzy/ART1/ART2A, rho k/8, 5 modes x eps in {0,2^-10,1/16,1/4}, "
                 "70% with a table reset function; fit or 2-3 partial_fit batches; non-trivial = distinct case reaching >= 2 categories",
         "traces_validated_against_impl": sum(1 for c in codes if c == 0),
-        "oracle_cases": n_or, "all_module_oracle_cases": n_any, "wrapper_trace_cases": n_wrap, "refit_after_reads_cases": n_refit, "simpleartmap_scan_cases": n_sam,
+        "oracle_cases": n_or, "all_module_oracle_cases": n_any, "wrapper_trace_cases": n_wrap, "refit_after_reads_cases": n_refit, "simpleartmap_scan_cases": n_sam, "table_kernel_cases": n_tab,
         "distribution": stats,
         "samples": [summaries[0], summaries[1]],
     })
